@@ -955,9 +955,15 @@ func (in *Interp) symbolicNowT(timeT types.Type) *StructV {
 		in.assume(later, "time.Now non-decreasing")
 		if d, ok := in.eng.cfg.Params["NOWDRIFT"]; ok {
 			// harness option: consecutive readings of the clock are at most d seconds apart
-			in.assume(ts.Ule(ts.Sub(sec, in.lastNowSec), ts.Const(64, uint64(d))), "time.Now drift bound")
+			// (stated against every earlier reading, so that each difference of two readings
+			// has a learned interval)
+			for j, prev := range in.nowSecs {
+				gap := uint64(d) * uint64(len(in.nowSecs)-j)
+				in.assume(ts.Ule(ts.Sub(sec, prev), ts.Const(64, gap)), "time.Now drift bound")
+			}
 		}
 	}
+	in.nowSecs = append(in.nowSecs, sec)
 	in.lastNowSec, in.lastNowNsec = sec, nsec
 	res.F[0] = nsec
 	res.F[1] = sec
